@@ -113,6 +113,22 @@ theorem analyze_is_source (p q : Pos) (h : p.analyze = some q) :
       simp only [hw, hb, Option.some.injEq] at h
       subst h; simp
 
+/-- the model's `WinDetails` as the regenerated struct (`RoadWin = 0`, `FlatsWin = 1`) -/
+def genDetails (d : WinDetails) : Gen.WinDetails :=
+  { Over := d.over, Reason := if d.reason == .road then 0 else 1, Winner := colorByte d.winner,
+    WhiteFlats := d.whiteFlats, BlackFlats := d.blackFlats }
+
+/-- `Position.WinDetails()` (over?, winner, road or flats, the two flat counts): the model's `winDetails` is the regenerated
+function applied to the position's fields and the regenerated `hasRoad` - the whole of "game end, winner, reason" is read
+out of `tak/game.go` -/
+theorem winDetails_is_source (p : Pos) :
+    genDetails p.winDetails =
+      Gen.positionWinDetails p.black p.caps p.standing p.white p.blackCaps p.blackStones p.cfg.blackWinsTies p.c.Mask
+        (Gen.positionHasRoad p.bgroups.toArray p.wgroups.toArray p.c.B p.c.L p.c.R p.c.T p.move) p.whiteCaps p.whiteStones := by
+  unfold Gen.positionWinDetails Pos.winDetails genDetails
+  rw [← hasRoad_is_source, ← gameOver_is_source, ← countFlats_is_source]
+  cases p.hasRoad.2 <;> simp
+
 example : Gen.positionHasRoad #[] #[0x3#64] 0x7#64 0x124#64 0x49#64 0x1c0#64 0 = (128#8, false) ∧
     Gen.positionHasRoad #[] #[0x49#64] 0x7#64 0x124#64 0x49#64 0x1c0#64 0 = (128#8, true) := by decide
 
